@@ -306,9 +306,9 @@ def plan(tier, kinds):
         "supply": [consts("supply", remotes=("r1", "r2"), mf=4, ghost=True, lag=4, vias=one)],
         "demand": [consts("demand", remotes=("r1", "r2"), ghost=True, lag=3, vias=one)],
         "map": [consts("map", nk=1, remotes=("r1", "r2"), ghost=True, lag=3, vias=one),
-                consts("map", nk=2, nv=1, remotes=("r1",), ghost=True, lag=2, vias=one)] +
-               ([] if q else [consts("map", nk=2, remotes=("r1",), ghost=True, lag=2, vias=one),
-                              consts("map", nk=2, nv=1, remotes=("r1",), ghost=True, lag=3, vias=one)]),
+                consts("map", nk=2, remotes=("r1",), ghost=True, lag=2, vias=one)] +
+               ([] if q else [consts("map", nk=2, remotes=("r1", "r2"), ghost=True, lag=3, vias=one),
+                              consts("map", nk=3, nv=1, remotes=("r1",), ghost=True, lag=3, vias=one)]),
     }
     neg = {"map": [consts("map", nk=1, remotes=("r1",), ghost=True, lag=2, vias=one, f12=False)]}
     sims = {
